@@ -13,7 +13,7 @@ from vp import gen, lib, scen
 ID = "C05"
 LEVEL = "exploration"
 BATCH = 4
-CASE_TIMEOUT = 300
+CASE_TIMEOUT = 3200
 C_BOUND = 200.0   # two truncated runs are compared
 RULE = ("(a) Hermitian operators with engineered spectra (repeated, zero, "
         "near-degenerate gaps 1e-13..1e-6, d=2..5) conjugated by Haar, real, "
@@ -70,6 +70,11 @@ def cases(tier, seed):
            for i in range(nb)]
     out += [{"kind": "cov", "seed": seed, "idx": i, "tier": tier}
             for i in range(nc)]
+    if tier == "thorough":
+        # the repository's own tests, with the Bath invariant and the
+        # physicality postconditions attached (contracts evaluated on every
+        # Bath / Tempo result the suite produces)
+        out.append({"kind": "repotests", "seed": seed, "tier": tier})
     return out
 
 
@@ -252,5 +257,12 @@ def run_cov(case):
                                 "err": err, "bound": bound})}
 
 
+def run_repotests(case):
+    from vp import repotests
+    return repotests.run(lambda m: m.startswith("bath"))
+
+
 def run_case(case):
+    if case["kind"] == "repotests":
+        return run_repotests(case)
     return run_bath(case) if case["kind"] == "bath" else run_cov(case)
